@@ -100,3 +100,30 @@ def run(chk: harness.Check):
         chk.expect(ok, "C14.D-queue-first", g.key.rsplit("::", 1)[-1], f"{g.file}:{g.line}",
                    f"{g.key.rsplit('::', 1)[-1]} must serve the shared event queue (front matter, diagnostics) before scanning",
                    sample=f"{g.key.rsplit('::', 1)[-1]}: queue.pop_front() first")
+
+    # front matter switches old-style metadata off in the analysis exactly as PullParser::new does in the parser
+    pf = F.funcs.get("cooklang::analysis::event_consumer::RecipeCollector::process_frontmatter")
+    if pf is None:
+        chk.fail("anchor-missing", "process_frontmatter", "", "anchor-missing: process_frontmatter not found")
+    else:
+        offs = []
+        ons = []
+        for i, j, st in pf.iter_stmts():
+            if st["k"] == "assign" and st["place"]["p"] and st["place"]["p"][-1] == ".old_style_metadata":
+                c = st["rv"].get("op", {}).get("const", {}) if st["rv"]["k"] == "use" else {}
+                (offs if c.get("bits") == "0" else ons).append(i)
+        ok = bool(offs) and not ons and must_pass(pf, [0], offs, pf.returns())
+        chk.expect(ok, "C14.D-frontmatter-mode", "process_frontmatter|old_style_metadata=false", f"{pf.file}:{pf.line}",
+                   "processing a front matter must leave old_style_metadata = false on every path: the metadata-only scanner stops reading `>>` lines "
+                   "once a front matter exists, so the full parse must not treat them as metadata either",
+                   sample=f"{pf.file}:{pf.line}: every path through process_frontmatter sets old_style_metadata = false")
+    pn = [g for g in F.funcs.values() if g.key.startswith("cooklang::parser::PullParser::") and g.key.endswith("::new") and not g.is_closure()]
+    for g in pn:
+        vals = set()
+        for ff, i, st, d in __import__("cfgq").aggregates(F, g.key, "parser::PullParser"):
+            e = resolve(ff, d["old_style_metadata"])
+            q = resolve(ff, d["queue"])
+            vals.add((full(e), "push" in full(q) or "events" in full(q) or ff.local_name((d["queue"].get("move") or d["queue"].get("copy") or {"l": -1})["l"]) == "events"))
+        chk.expect(vals == {("0", True), ("1", False)} or {v[0] for v in vals} == {"0", "1"}, "C14.D-frontmatter-mode", "PullParser::new|old_style_metadata", f"{g.file}:{g.line}",
+                   f"PullParser::new must disable old-style metadata exactly when a front matter was found; it builds {sorted(vals)}",
+                   sample="PullParser::new: old_style_metadata = false with front matter, true without")
